@@ -718,8 +718,8 @@ func famSelection(t *tgen) {
 		// field or method of the receiver type
 		mname := fmt.Sprintf("M%d", k)
 		recv := ""
-		if t.ch(0.35) {
-			mname = t.pick("M0", "M1", "S", "D", "helper", name, "A", "Has")
+		if t.ch(0.5) {
+			mname = t.pick("M0", "M1", "S", "D", "helper", "S", "D", "helper", name, "A", "Has")
 			if t.ch(0.4) {
 				recv = "\t// :recv s\n"
 			}
